@@ -144,10 +144,6 @@ package geojson
 // RequireValid for this parser is NOT under contract: it needs a two-state frame argument (the validity of the
 // children parsed earlier is unchanged by the later writes to the fresh receiver); covered by the bounded suite only.
 
-//@ lemma pointKid(o Object)
-//@   props C08
-//@   requires isPointK(o)
-//@   ensures KidInv(o) && !isCollObjK(o)
 //@ func parseJSONMultiPoint
 //@   props C05 C07 C08
 //@   arith order
@@ -163,7 +159,7 @@ package geojson
 //@   call 0 iterinv Kids: forall j int :: (0 <= j && j < len(g.collection.children)) ==> isPointK(collChild(g.collection, j))
 //@   call 0 iterinv FrameC: forall c *collection :: old($alloc)[c] ==> (c.children == old(c.children) && c.extra == old(c.extra) && c.pempty == old(c.pempty) && c.prect == old(c.prect) && c.tree == old(c.tree))
 //@   call 0 iterinv FrameE: forall e *extra :: old($alloc)[e] ==> e.members == old(e.members)
-//@   stmt multipoint.go:73 use forall j int :: pointKid(collChild(g.collection, j))
+//@   stmt multipoint.go:"g.parseInitRectIndex(opts)" use forall j int :: pointKid(collChild(g.collection, j))
 
 //@ func parseJSONMultiLineString
 //@   props C05 C07 C08
